@@ -221,8 +221,9 @@ def _parsers():
         import cnfgen.clitools.pbgen     # noqa
         from cnfgen.clitools.cmdline import get_formula_helpers, get_transformation_helpers
         mc, mp = sys.modules["cnfgen.clitools.cnfgen"], sys.modules["cnfgen.clitools.pbgen"]
-        _PARSERS["c"] = (mc, mc.setup_command_line_parsers("cnfgen", get_formula_helpers(), get_transformation_helpers()))
-        _PARSERS["p"] = (mp, mp.setup_command_line_parsers("pbgen", get_formula_helpers()))
+        c = (mc, mc.setup_command_line_parsers("cnfgen", get_formula_helpers(), get_transformation_helpers()))
+        p = (mp, mp.setup_command_line_parsers("pbgen", get_formula_helpers()))
+        _PARSERS.update(c=c, p=p)
     return _PARSERS
 
 
@@ -238,10 +239,15 @@ def build_pair(argv, mode):
             if isinstance(e, KeyboardInterrupt):
                 raise
             return e
-    if mode == "cli":
+    P = None
+    if mode != "cli":
+        try:
+            P = _parsers()
+        except Exception:  # noqa: the tools' parser functions are not what they were: use the complete cli() instead
+            P = None
+    if P is None:
         return (run(lambda: cli_cnfgen(["cnfgen"] + argv, mode="formula")),
                 run(lambda: cli_pbgen(["pbgen"] + argv, mode="formula")))
-    P = _parsers()
 
     def fast_c():
         mc, (fp, tp) = P["c"]
